@@ -91,8 +91,13 @@ def not_inert_reason(lines):
             return 'thematic break'
         if i > 0 and _SETEXT.match(line):
             return 'setext underline'
-        if _LIST.match(line):
-            return 'list marker'
+        m = _LIST.match(line)
+        if m:
+            # on a continuation line a list item interrupts the paragraph only if it is not empty and, when ordered, numbered 1
+            marker = m.group(0).strip()
+            empty = line[len(marker):].strip() == ''
+            if i == 0 or not (empty or (marker[0].isdigit() and int(marker[:-1]) != 1)):
+                return 'list marker'
         if line.startswith('>'):
             return 'block quote marker'
         if _FENCE.match(line):
@@ -238,12 +243,12 @@ class C14(Prop):
 
     def selfcheck(self):
         """The inertness predicate must reject live constructs and accept plain tricky prose."""
-        live = [['    code'], ['a', '   - x'], ['a', ' ==='], ['a', '     -|-'], ['  > q'], ['# h'], ['a', '==='], ['- x'], ['1. x'], ['> q'], ['*a*'], ['a `b` c'], ['[a](b)'], ['a &amp; b'], ['a \\* b'],
+        live = [['a', '1. x'], ['a', '01) x'], ['a', '- x'], ['10. x'], ['    code'], ['a', '   - x'], ['a', ' ==='], ['a', '     -|-'], ['  > q'], ['# h'], ['a', '==='], ['- x'], ['1. x'], ['> q'], ['*a*'], ['a `b` c'], ['[a](b)'], ['a &amp; b'], ['a \\* b'],
                 ['<http://x.y>'], ['~~a~~ ~~'], ['***'], ['a', '|-|'], ['```'], ['a\\']]
         for lines in live:
             if not_inert_reason(lines) is None:
                 raise RuntimeError('inertness predicate accepts %r' % (lines,))
-        inert = [['a', '    > b'], ['a', '\t- b', '     # c'], [' a', '  b #'], ['snake_case 2*3 AT&T #tag'], ['a * b - c + d', '= e | f ~ g'], ['1.5 (a) 2)x', 'it\'s "q" 100%']]
+        inert = [['a', '10. x'], ['a', '2) x', '100. y'], ['a', '1.'], ['a', '+'], ['a', '    > b'], ['a', '\t- b', '     # c'], [' a', '  b #'], ['snake_case 2*3 AT&T #tag'], ['a * b - c + d', '= e | f ~ g'], ['1.5 (a) 2)x', 'it\'s "q" 100%']]
         for lines in inert:
             if not_inert_reason(lines) is not None:
                 raise RuntimeError('inertness predicate rejects %r: %s' % (lines, not_inert_reason(lines)))
